@@ -257,6 +257,7 @@ fn check_history(seed: usize, ops: &[MapOp]) -> Vec<Viol> {
         let pos: Vec<(u32, u32)> = sm.tokens().map(|t| t.get_dst()).collect();
         if let Some((sig, what)) = check_map_invariants(&sm, &query_grid(&pos), &format!("after-{}", op_name(op))) {
             found.push(Viol::new(format!("C04/{sig}"), format!("seed map #{seed} {:?} after {:?}: {what}", seeds[seed].tokens, &ops[..=i]), case.clone()));
+            return found;
         }
     }
     found
@@ -283,14 +284,18 @@ fn dfs(sm: &SourceMap, hist: &mut Vec<MapOp>, depth: usize, seed: usize, seeds: 
         let o = obs_real(&next);
         l.states.insert(h64(&o));
         let pos: Vec<(u32, u32)> = o.tokens.iter().map(|t| (t.gl, t.gc)).collect();
+        let mut broken = false;
         if let Some((sig, what)) = check_map_invariants(&next, &query_grid(&pos), &format!("after-{}", op_name(op))) {
+            broken = true; // do not build on a state that already violates the invariants
             l.violation_sub(
                 order,
                 hist.len() as u64,
                 Viol::new(format!("C04/{sig}"), format!("seed map #{seed} {:?} after {hist:?}: {what}", seeds[seed].tokens), json!({"kind": "e2", "seed": seed, "ops": serde_json::to_value(&*hist).unwrap()})),
             );
         }
-        if hist.len() < depth {
+        if broken {
+            l.traces += 1;
+        } else if hist.len() < depth {
             dfs(&next, hist, depth, seed, seeds, l, order);
         } else {
             l.traces += 1;
@@ -389,6 +394,8 @@ pub fn run(run: &mut Run) -> Finish {
         let pos: Vec<(u32, u32)> = o.tokens.iter().map(|t| (t.gl, t.gc)).collect();
         if let Some((sig, what)) = check_map_invariants(&next, &query_grid(&pos), &format!("after-{}", op_name(first))) {
             l.violation_sub(idx, 1, Viol::new(format!("C04/{sig}"), format!("seed map #{seed} {:?} after {hist:?}: {what}", seeds[seed].tokens), json!({"kind": "e2", "seed": seed, "ops": serde_json::to_value(&hist).unwrap()})));
+            l.traces += 1;
+            return;
         }
         if depth > 1 {
             dfs(&next, &mut hist, depth, seed, &seeds, l, idx);
